@@ -954,7 +954,9 @@ impl<'b> InnerBucket<'b> {
             self.put_leaf(Leaf::Bucket(name, meta))?;
         }
 
-        let root = self.nodes[self.page_node_ids[&self.meta.root_page] as usize].clone();
+        // The root page may have no node yet: rebalancing can collapse the root onto a child
+        // page that was never touched in this transaction.
+        let root = self.node(PageNodeID::Page(self.meta.root_page), None);
         let mut root = root.borrow_mut();
         let page_id = root
             .spill(self, tx_freelist, None)?
